@@ -18,13 +18,15 @@
   query lock / unlock, `Cache.Register` / `Unregister`, `Reset`.
   Also: `NewEntityWith`, `Builder.New` with a target, batch creation, `Assign`, value writes
   (`Set`, pointer writes), resources and listeners.
-  Not yet in the closure (covered by the correspondence only): `Relations.Set` and its batch
-  form, `Batch.RemoveEntities`, `LoadEntities`.
+  and `Relations.Set`.
+  Not yet in the closure (covered by the correspondence only): `Batch.SetRelation` /
+  `Relations.SetBatch`, `Batch.RemoveEntities`, `LoadEntities`.
 -/
 import ArcheProofs.Lemmas.GOps2
+import ArcheProofs.Lemmas.SetRel
 
 namespace Arche.Props.C01.Reach
-open Arche Arche.World Arche.Arr Arche.Storage Arche.IndexInv Arche.SameRows Arche.Graph Arche.Closed Arche.TInv Arche.KInv Arche.Move Arche.Remove Arche.Cov Arche.Cache Arche.SInv Arche.DInv Arche.Create Arche.Frames Arche.BatchOps Arche.GInv Arche.GOps Arche.GVals Arche.GOps2 Arche.BatchLoop
+open Arche Arche.World Arche.Arr Arche.Storage Arche.IndexInv Arche.SameRows Arche.Graph Arche.Closed Arche.TInv Arche.KInv Arche.Move Arche.Remove Arche.Cov Arche.Cache Arche.SInv Arche.DInv Arche.Create Arche.Frames Arche.BatchOps Arche.GInv Arche.GOps Arche.GVals Arche.GOps2 Arche.SetRel Arche.BatchLoop
 open Arche.Props.C08 (plain)
 
 /-! ## the initial world -/
@@ -168,6 +170,9 @@ inductive Reach : World → List Entity → List Entity → Prop
   | assign {w is lv} (h : Reach w is lv) (e : Entity) (hi : e ∈ is) (rel : Option CompId) (target : Entity) (comps : List (CompId × Val))
       (hreg : ∀ id ∈ comps.map (·.1), id < w.reg.count) (hok : (w.assign e rel target comps).out = .ok ()) :
       Reach (w.assign e rel target comps).w is lv
+  /-- `Relations.Set` -/
+  | setRelation {w is lv} (h : Reach w is lv) (e : Entity) (hi : e ∈ is) (comp : CompId) (target : Entity)
+      (hok : (w.setRelation e comp target).out = .ok ()) : Reach (w.setRelation e comp target).w is lv
   /-- `World.Set`, a write through the `Get` pointer or through `Query.Get` -/
   | write {w is lv} (h : Reach w is lv) (t r : Nat) (id : CompId) (v : Val) : Reach (w.setCell t r id v) is lv
   /-- resources and listeners: fields the invariants do not read -/
@@ -205,6 +210,7 @@ theorem reach_ginv {w : World} {is lv : List Entity} (h : Reach w is lv) : GInv 
   | newEntityTarget h targetID target comps withVals hreg e hok ih => exact ginv_newEntityTarget _ _ _ ih targetID target comps withVals hreg e hok
   | newEntities h count rel target comps withVals hreg c hok ih => exact (ginv_newEntities _ _ _ ih count rel target comps withVals hreg c hok).1
   | assign h e hi rel target comps hreg hok ih => exact ginv_assign _ _ _ ih e hi rel target comps hreg hok
+  | setRelation h e hi comp target hok ih => exact ginv_setRelation _ _ _ ih e hi comp target hok
   | write h t r id v ih => exact ginv_setCell _ _ _ ih t r id v
   | @other w0 _ _ h res rc l ih => exact ginv_congr (w := w0) rfl rfl rfl rfl rfl rfl rfl rfl rfl ih
 
